@@ -21,8 +21,10 @@ from mc import tunables
 
 MAX_TOLERATED = tunables.watchdog_max_failures()   # "the tolerated maximum": bellows' MAX_WATCHDOG_FAILURES, not fixed by the property
 PERIOD_SMALL = 3
-OUTCOMES_V4 = ["ok", "silent", "stopped"]
-OUTCOMES = ["ok", "silent-counters", "silent-buffers", "stopped"]
+OUTCOMES_V4 = ["ok", "silent", "stopped", "invalid"]
+OUTCOMES = ["ok", "silent-counters", "silent-buffers", "stopped", "invalid"]
+INVALID = ("__raw__", 0x58, b"\x36")     # the NCP answers the keep-alive with invalidCommand (reason: unsupported) -- an EZSP error
+CMD_TIMEOUT = tunables.ezsp_cmd_timeout()
 
 
 class World:
@@ -45,9 +47,11 @@ class World:
         def counters(a, kind):
             if "counters" in self.mute:
                 return None
+            if "invalid" in self.mute:
+                return INVALID
             return [[k % 7 for k in range(ncounters)]]
 
-        ncp.handlers["nop"] = lambda a: None if "nop" in self.mute else []
+        ncp.handlers["nop"] = lambda a: None if "nop" in self.mute else (INVALID if "invalid" in self.mute else [])
         ncp.handlers["readCounters"] = lambda a: counters(a, "read")
         ncp.handlers["readAndClearCounters"] = lambda a: counters(a, "clear")
         ncp.handlers["getValue"] = lambda a: None if "buffers" in self.mute else [t.EzspStatus.SUCCESS, b"\x20"]
@@ -73,6 +77,8 @@ class World:
             self.mute = {"counters"}
         elif outcome == "silent-buffers":
             self.mute = {"buffers"}
+        elif outcome == "invalid":
+            self.mute = {"invalid"}
         if outcome == "stopped":
             self.ezsp.stop_ezsp()
         else:
@@ -110,7 +116,7 @@ class World:
         elif self.version == 4:
             exp = ["nop"]
         else:
-            exp = [first] if outcome == "silent-counters" else [first, "getValue"]
+            exp = [first] if outcome in ("silent-counters", "invalid") else [first, "getValue"]
         if outcome == "stopped" and self.version != 4 and seen == [first]:
             # the counter read goes through the protocol handler directly and is still sent when EZSP is marked
             # stopped; the free-buffer read then raises EzspError.  Which of the two commands fails is not the property's business.
@@ -119,8 +125,19 @@ class World:
             self.viol.append(f"feed #{self.ordinal} (outcome {outcome}, period {self.period}): NCP saw {seen}, expected {exp}")
         if outcome in ("silent", "silent-counters", "silent-buffers"):
             dt = self.loop.time() - t0
-            if abs(dt - 10.0) > 1e-6:
-                self.viol.append(f"unanswered keep-alive ended after {dt:.3f}s, expected the 10 s command timeout")
+            if abs(dt - CMD_TIMEOUT) > 1e-6:
+                self.viol.append(f"unanswered keep-alive ended after {dt:.3f}s, expected the {CMD_TIMEOUT} s command timeout")
+
+    def renegotiate(self):
+        """What a reset + version negotiation on the same EZSP object does to the protocol handler (EZSP.reset installs the legacy
+        handler, version() the negotiated one): the handler object is replaced, the version number recurs."""
+        sw = getattr(self.ezsp, "_switch_protocol_version", None)
+        if sw is None:
+            return False
+        sw(4)
+        sw(self.version)
+        self.ncp.framing = self.version
+        return True
 
     def step_violations(self):
         return self.viol
@@ -191,6 +208,25 @@ def version_job(args):
             w.close()
             out["stateless"] += 1
             out["sigs"].add((v, tuple(trace)))
+        # the protocol handler is replaced (reset + re-negotiation on the same EZSP object) before feed k of every short sequence
+        for seq in itertools.product(range(len(outs)), repeat=3):
+            for k in range(3):
+                w = World({"version": v})
+                hist = []
+                for j, c in enumerate(seq):
+                    if j == k:
+                        if not w.renegotiate():
+                            break
+                        hist.append("<handler replaced>")
+                    w.apply(c)
+                    hist.append(outs[c])
+                    for msg in w.viol:
+                        viol.append((vkey("after a reset and re-negotiation: " + msg), f"v{v}: after a reset and re-negotiation on the same EZSP object: {msg}",
+                                     {"world": "c19", "version": v, "period": PERIOD_SMALL, "outcomes": list(hist)}))
+                    if w.viol:
+                        break
+                w.close()
+                out["stateless"] += 1
         if v != 4:
             for pos in list(range(185)) + ["run"]:
                 w = World({"version": v, "period": shipped_period})
@@ -250,7 +286,7 @@ def main(tier: str) -> int:
         "samples": samples[:3] + [{"stateless_example": ["ok", "silent-counters", "stopped", "silent-buffers", "ok"]}],
     }
     rep.assumptions = [
-        "tolerated maximum 4 and command timeout 10 s are hard-coded in the oracle; the clear period is configured through the module constant (3 for the closed graph, the shipped value for the long runs)",
+        "tolerated maximum and command timeout are read from bellows as tunables; the clear period is configured through the module constant (3 for the closed graph, the shipped value for the long runs)",
         "the feed ordinal counts every feed, failed ones included (one feed per watchdog period)",
         "ControllerApplication is constructed with zigpy.util.Requests back-filled (mc/env/compat.py)",
     ]
@@ -265,6 +301,9 @@ def replay(data) -> int:
         w = World({"version": data["version"], "period": data.get("period", PERIOD_SMALL)})
         bad = 0
         for o in data["outcomes"]:
+            if o == "<handler replaced>":
+                w.renegotiate()
+                continue
             w.feed(o)
             if w.viol or len(data["outcomes"]) < 20:
                 print(o, "->", w.viol)
